@@ -7,6 +7,7 @@ import CopVerif.Model.SelectCopula
     selcop cand <fam> <theta> <mL> <zl…mL> <zr…>        -> ok left… | right…                    | err <E>
     selcop decide <nc> <mL> <mR> <L…> <R…> (<left…mL> <right…mR>)×nc
                                                         -> ok dl… | dr… | db… | score… | <idx>
+    selcop rank <n> <dl…n> <dr…n> <db…n>                -> ok score… | <idx>
     selcop select <uConst> <vConst> uMin uMax vMin vMax tau frankTheta inf <nb> <base…> <u v …>
         -> early <fam> <tau> <theta>
          | ranked <fam> <tau> <theta> | <idx> | <fam theta>… | dl… | dr… | db… | score…
@@ -83,6 +84,16 @@ def selcop (ws : List String) : String :=
         "ok " ++ showTriples ts ++ " | " ++ showFloats (sc.map showOpt) ++ s!" | {idx}"
       | _ => "bad-op"
     | _, _, _, _ => "bad-op"
+  | "rank" :: n :: rest =>
+    match parseNat n, parseFloats rest with
+    | some n, some xs =>
+      match chunks [n, n, n] xs with
+      | some ([dl, dr, db], []) =>
+        let ts := (dl.zip (dr.zip db))
+        let sc := scores Gen.SelectCopula.rankAscending ts
+        "ok " ++ showFloats (sc.map showOpt) ++ s!" | {pickIdx Gen.SelectCopula.pickMax sc}"
+      | _ => "bad-op"
+    | _, _ => "bad-op"
   | "select" :: uc :: vc :: rest =>
     match parseFloats (rest.take 7), (rest.drop 7) with
     | some [uMin, uMax, vMin, vMax, tau, frankθ, inf], nb :: rest2 =>
